@@ -140,7 +140,7 @@ impl NewlineCache {
             Err(j) => (self.newlines[j - 1], j),
         };
         let en = match self.newlines[st_line..].binary_search(&span.end()) {
-            Ok(j) if st_line + j == self.newlines.len() - st_line => {
+            Ok(j) if st_line + j == self.newlines.len() - 1 => {
                 self.newlines.last().unwrap() + self.trailing_bytes
             }
             Ok(j) => self.newlines[st_line + j + 1] - 1,
